@@ -11,4 +11,4 @@ func (w *World) actExtra(wl *Wallet, n *Node, v1ok, v2ok bool) []*PoolTxn {
 func (w *World) crashNode(n *Node)   {}
 func (w *World) restartNode(n *Node) {}
 
-func (w *World) finalChecks() {}
+func (w *World) finalChecks() { w.concurrentStage() }
